@@ -52,10 +52,6 @@ def run(tier):
     if clone_calls:
         d = clone_calls[0][1]["dest"]
         wc = pl_local(d)
-        # the clone result may be moved into the named local
-        for bi, si, s in f.statements():
-            if s[0] == "a" and isinstance(s[1], int) and s[2]["k"] == "use" and op_place(s[2]["x"]) == d:
-                wc = s[1]
     # (3) writes through the parameter
     writes = []
     for bi, si, s in f.statements():
@@ -67,8 +63,8 @@ def run(tier):
     full = [w for w in writes if w[2][2]["k"] == "use" and [e[0] for e in pl_proj(w[2][1])] == ["deref"]]
     if len(writes) == 1 and len(full) == 1:
         bi, si, s = full[0]
-        src = op_place(s[2]["x"])
-        if wc is not None and src is not None and pl_local(src) == wc and not pl_proj(src):
+        srcch = flow.origin_chain(f.sym_operand(s[2]["x"]))
+        if wc is not None and srcch is not None and srcch[0] == ("local", wc) and not srcch[1]:
             res.ok("write-once-from-copy", "R-PROV", "`*cert_state = <working copy>` is the only write through the parameter")
         else:
             res.violation("write-source", "the caller's state is overwritten with %s, not with the working copy" % sym_str(f.sym_operand(s[2]["x"])), where=where, rule="R-PROV")
